@@ -36,6 +36,10 @@
 #include "soplex/array.h"
 #include "soplex/exceptions.h"
 
+#ifdef SOPLEX_VERIF
+struct SoPlexVerifAccess;   // read-only observer used by the verification harnesses in /verif
+#endif
+
 namespace soplex
 {
 //---------------------------------------------------------------------
@@ -70,6 +74,9 @@ namespace soplex
 template <class R>
 class SPxMainSM : public SPxSimplifier<R>
 {
+#ifdef SOPLEX_VERIF
+   friend struct ::SoPlexVerifAccess;
+#endif
 private:
    //---------------------------------------------------------------------
    //  class PostsolveStep
